@@ -3,11 +3,11 @@ package main
 // Symbolic values and program states.
 
 import (
-	"sync"
 	"fmt"
 	"go/types"
 	"sort"
 	"strings"
+	"sync"
 )
 
 type Val interface{}
